@@ -26,6 +26,7 @@ def matrix(thorough=False):
     for goal in ("min", "max"):
         for strat in ("linear", "binary"):
             out.append(dict(vals="ValsU2", nm=3, kind="ubv", width=2, goal=goal, strategy=strat, mode="lex"))
+        out.append(dict(vals="ValsS2", nm=2, kind="sbv", width=2, goal=goal, strategy="linear", mode="lex3"))
         out.append(dict(vals="ValsU2", nm=3, kind="ubv", width=2, goal=goal, strategy="linear", mode="pareto"))
         out.append(dict(vals="ValsInt", nm=3, kind="int", width=2, goal=goal, strategy="linear", mode="pareto"))
     return out
